@@ -874,6 +874,9 @@ func c17Gen(t *rapid.T) c17Case {
 	// document in three is all-advertising)
 	d := g.genDoc(rapid.IntRange(0, 2).Draw(t, "all-advertise") == 0, 0)
 	s := int64(time.Second)
+	if rapid.IntRange(0, 4).Draw(t, "repeatlabels") == 0 {
+		g.repeatLabels(&d)
+	}
 	c := c17Case{Doc: d, State: genSysState(t), Overlap: rapid.IntRange(0, 2).Draw(t, "overlap") == 0}
 	c.State.NowNS = 0
 	switch rapid.IntRange(0, 3).Draw(t, "up") {
